@@ -415,7 +415,11 @@ async fn run_sim_generic<A: ConcurrencyAlgorithm + 'static>(
                     saw_unpolled_drop = true;
                 }
                 let fut = async move {
-                    // readiness, checked against the ground truth at every poll
+                    // readiness, checked against the ground truth at every poll; a caller with an odd
+                    // gap checks readiness a second time after it (the same handle polled ready twice
+                    // with no call in between, while other callers came and went)
+                    let rounds = if ready_gap % 2 == 1 { 2 } else { 1 };
+                    for round in 0..rounds {
                     futures::future::poll_fn(|cx| {
                         let in_flight_truth = truth.in_flight() as usize;
                         let limit = svc.limit();
@@ -449,8 +453,9 @@ async fn run_sim_generic<A: ConcurrencyAlgorithm + 'static>(
                         res
                     })
                     .await?;
-                    if ready_gap > 0 {
+                    if ready_gap > 0 && round == 0 {
                         tokio::time::sleep(Duration::from_millis(ready_gap)).await;
+                    }
                     }
                     let call = svc.call(req);
                     if drop_unpolled {
